@@ -58,7 +58,7 @@ def outcome_under(kind, base, options):
         return 'failed'
     if options == '-NORMALIZE_WHITESPACE' and kind == 'opt_ws':
         return 'failed'
-    if options == '+IGNORE_WANT' and kind in ('fail_output', 'fail_late', 'opt_ignore_want'):
+    if options == '+IGNORE_WANT' and kind in gm.FAIL_BY_OUTPUT + ('opt_ignore_want',):
         return 'passed'
     return base
 
